@@ -1,4 +1,243 @@
-(* placeholder until the proofs land *)
-From FluentV Require Import Syntax.SerializerModel.
-Theorem C04_placeholder : True.
-Proof. exact Logic.I. Qed.
+(* Props/C04.v — Serializer round trip: serialize then parse gives the same tree; the serializer
+   output is a fixed point.  Only statements here; proofs are in Syntax/SerializerProofs.v (and, for the
+   fragment, Syntax/RoundTrip.v).
+
+   PROVED IN FULL, for ALL trees (not only parser outputs), about Syntax/SerializerModel.v:
+     C04_serialize_total          serialize_with_options never panics / always returns
+     C04_indent_balanced          every serialize_xxx writer action returns and restores indent_level
+     C04_output_extends           ... and only appends to the buffer
+     C04_write_char_into_indent_line_start / _elsewhere / _general
+                                  the one action that does not only append replaces exactly one character
+     C04_junk_verbatim, C04_junk_skipped     Junk is written byte for byte / not at all (the D6 repair)
+     C04_comment_lines            the exact text serialize_comment writes
+     C04_final_indent_zero        a run of the serializer ends at the indent level it started with
+   STATED ONLY (Definitions, Prop-valued):
+     C04_roundtrip_statement, C04_fixpoint_statement      the property over all parser outputs
+   and, as the code stands, both are FALSE: the recorded findings D7 (a lone '#' as last line) and D21
+   (lone CR as only content of a pattern's last line) are counterexamples, proved here:
+     C04_roundtrip_statement_refuted_by_D7, C04_fixpoint_statement_refuted_by_D7,
+     C04_roundtrip_statement_refuted_by_D21
+   Examples (vm_compute): C04_example_xxx — round trip and fixed point on concrete inputs.          *)
+From FluentV Require Import Base.Bytes Base.Outcome Base.Utf8 Syntax.Ast.
+From FluentV Require Import Syntax.ParserModel Syntax.SerializerModel Syntax.SerializerProofs Syntax.TreeNorm.
+
+(* ---- "serialising ... yields" : the serializer returns for every tree ---- *)
+Theorem C04_serialize_total :
+  forall with_junk (t : resource), exists s, serialize_with_options with_junk t = Done s.
+Proof. exact serialize_total. Qed.
+
+(* ---- the lemma behind totality: indent / dedent are balanced, so dedent never underflows ---- *)
+Definition returns_with_same_indent (a : W) : Prop :=
+  forall x, exists x', a x = Done x' /\ indent_level x' = indent_level x.
+
+Theorem C04_indent_balanced :
+  (forall p, returns_with_same_indent (serialize_pattern p)) /\
+  (forall e, returns_with_same_indent (serialize_expression e)) /\
+  (forall i, returns_with_same_indent (serialize_inline_expression i)) /\
+  (forall el, returns_with_same_indent (serialize_element el)) /\
+  (forall a, returns_with_same_indent (serialize_call_arguments a)) /\
+  (* a variant: the default marker '*' is written INTO the indentation, so a default variant needs
+     the position a select expression gives it: at a line start, inside at least one indent *)
+  (forall k p d x, (d = false \/ (ends_with 10 x = true /\ indent_level x <> 0)) ->
+     exists x', serialize_variant (Variant k p d) x = Done x' /\ indent_level x' = indent_level x) /\
+  (forall with_junk st e, exists st',
+     serialize_entry with_junk st e = Done st' /\ indent_level (w st') = indent_level (w st)) /\
+  (forall with_junk st body, exists st',
+     serialize_resource with_junk st body = Done st' /\ indent_level (w st') = indent_level (w st)).
+Proof.
+  assert (B : forall a, balanced a -> returns_with_same_indent a).
+  { intros a Ha x. destruct (Ha x) as [x' [E [L _]]]. exists x'. split; assumption. }
+  repeat split.
+  - intros p. apply B, ser_pattern_balanced.
+  - intros e. apply B, ser_expression_balanced.
+  - intros i. apply B, ser_inline_balanced.
+  - intros el. apply B, ser_element_balanced.
+  - intros a. apply B, ser_call_arguments_balanced.
+  - intros k p d x H. destruct (ser_variant_ok (Variant k p d) x H) as [x' [E [L _]]].
+    exists x'. split; assumption.
+  - intros wj st e. destruct (serialize_entry_ok wj st e) as [st' [E [L _]]]. exists st'. split; assumption.
+  - intros wj st body. destruct (serialize_resource_ok wj body st) as [st' [E [L _]]].
+    exists st'. split; assumption.
+Qed.
+
+(* ---- the buffer only grows: the input buffer is a suffix of the (reversed) output buffer ---- *)
+Definition only_appends (a : W) : Prop :=
+  forall x x', a x = Done x' -> exists added, rbuf x' = added ++ rbuf x.
+
+Theorem C04_output_extends :
+  (forall item, only_appends (write_literal item)) /\
+  only_appends newline /\
+  (forall p, only_appends (serialize_pattern p)) /\
+  (forall e, only_appends (serialize_expression e)) /\
+  (forall i, only_appends (serialize_inline_expression i)) /\
+  (forall el, only_appends (serialize_element el)) /\
+  (forall a, only_appends (serialize_call_arguments a)) /\
+  (forall k p d x x', (d = false \/ (ends_with 10 x = true /\ indent_level x <> 0)) ->
+     serialize_variant (Variant k p d) x = Done x' -> exists added, rbuf x' = added ++ rbuf x) /\
+  (forall with_junk st e st', serialize_entry with_junk st e = Done st' ->
+     exists added, rbuf (w st') = added ++ rbuf (w st)) /\
+  (forall with_junk st body st', serialize_resource with_junk st body = Done st' ->
+     exists added, rbuf (w st') = added ++ rbuf (w st)).
+Proof.
+  assert (B : forall a, balanced a -> only_appends a).
+  { intros a Ha x x' E. destruct (Ha x) as [x2 [E2 [_ A]]]. rewrite E2 in E. injection E as <-. exact A. }
+  repeat split.
+  - intros item. apply B, balanced_write_literal.
+  - apply B, balanced_newline.
+  - intros p. apply B, ser_pattern_balanced.
+  - intros e. apply B, ser_expression_balanced.
+  - intros i. apply B, ser_inline_balanced.
+  - intros el. apply B, ser_element_balanced.
+  - intros a. apply B, ser_call_arguments_balanced.
+  - intros k p d x x' H E. destruct (ser_variant_ok (Variant k p d) x H) as [x2 [E2 [_ A]]].
+    rewrite E2 in E. injection E as <-. exact A.
+  - intros wj st e st' E. destruct (serialize_entry_ok wj st e) as [st2 [E2 [_ A]]].
+    rewrite E2 in E. injection E as <-. exact A.
+  - intros wj st body st' E. destruct (serialize_resource_ok wj body st) as [st2 [E2 [_ A]]].
+    rewrite E2 in E. injection E as <-. exact A.
+Qed.
+
+(* write_char_into_indent is the exception.  Where the serializer uses it (a default variant: at a line
+   start, indent level k+1) the pending indentation is written with its last space replaced by the
+   character: forward, the buffer grows by 4k+3 spaces and ch. *)
+Theorem C04_write_char_into_indent_line_start : forall ch x k,
+  ends_with 10 x = true -> indent_level x = S k ->
+  write_char_into_indent ch x = Done (Writer (ch :: repeat 32%N (4 * k + 3) ++ rbuf x) (S k)).
+Proof. exact write_char_into_indent_line_start. Qed.
+
+(* anywhere else it REPLACES the last character (b: any one-byte character other than a line feed) *)
+Theorem C04_write_char_into_indent_elsewhere : forall ch x b r,
+  rbuf x = b :: r -> N.eqb b 10 = false -> is_cont b = false ->
+  write_char_into_indent ch x = Done (Writer (ch :: r) (indent_level x)).
+Proof. exact write_char_into_indent_elsewhere. Qed.
+
+(* in general: String::pop after the lazy indentation, then push *)
+Theorem C04_write_char_into_indent_general : forall ch x,
+  write_char_into_indent ch x =
+  Done (Writer (ch :: pop_char (rbuf (if ends_with 10 x then write_indent x else x))) (indent_level x)).
+Proof. exact write_char_into_indent_general. Qed.
+
+(* ---- "Junk preserved when serialising with junk, dropped otherwise" ---- *)
+(* with junk, writer at a line start (where every entry starts), level 0: the content is appended verbatim *)
+Theorem C04_junk_verbatim : forall st content,
+  (rbuf (w st) = [] \/ exists r, rbuf (w st) = 10%N :: r) -> indent_level (w st) = 0 ->
+  serialize_entry true st (Junk content) =
+  Done (SState (Writer (rev content ++ rbuf (w st)) 0) false).
+Proof. exact serialize_junk_verbatim. Qed.
+
+(* without junk a Junk entry changes neither the buffer nor the serializer state *)
+Theorem C04_junk_skipped : forall st content, serialize_entry false st (Junk content) = Done st.
+Proof. exact serialize_junk_skipped. Qed.
+
+(* ---- comments: per content line  prefix, then " " and the line unless it is whitespace only, then the
+   line end (CR LF when the text written so far ends in CR, LF otherwise).  Forward buffer. ---- *)
+Theorem C04_comment_lines : forall c prefix x,
+  (rbuf x = [] \/ exists r, rbuf x = 10%N :: r) -> indent_level x = 0 ->
+  exists x', serialize_comment c prefix x = Done x' /\
+    rev (rbuf x') =
+    rev (rbuf x) ++
+    concat (map (fun l => let body := prefix ++ (if all_fluent_ws l then [] else 32%N :: l) in
+                          body ++ line_end_after body) (content c)).
+Proof.
+  intros c prefix x Hs Hl.
+  destruct (serialize_comment_lines_spec (content c) prefix x Hs Hl) as [x' [E [_ [_ W]]]].
+  exists x'. split; [exact E | exact W].
+Qed.
+
+(* the serializer as a whole ends at the indent level it started with (0) *)
+Theorem C04_final_indent_zero : forall with_junk t st,
+  serialize_resource with_junk (SState (Writer [] 0) false) t = Done st -> indent_level (w st) = 0.
+Proof. intros wj t st H. apply serialize_resource_level0 in H. exact H. Qed.
+
+(* ---------------------------------------------------------------------------------------------- *)
+(* The property itself, over all parser outputs (STATED, not proved).                               *)
+
+(* "For every tree the parser can produce, serialising it and parsing the text again yields an equal
+   tree (pattern text compared after joining adjacent text elements, whitespace-only comment lines equal
+   to empty ones; Junk preserved when serialising with junk, dropped otherwise)." *)
+Definition C04_roundtrip_statement : Prop :=
+  forall bs t errs, utf8_valid bs = true -> parse bs = Done (t, errs) ->
+  forall with_junk s, serialize_with_options with_junk t = Done s ->
+  exists t2 errs2, parse s = Done (t2, errs2) /\ norm t2 = norm (drop_junk_unless with_junk t).
+
+(* "Serialising the re-parsed tree reproduces the same text byte for byte." *)
+Definition C04_fixpoint_statement : Prop :=
+  forall bs t errs, utf8_valid bs = true -> parse bs = Done (t, errs) ->
+  forall with_junk s, serialize_with_options with_junk t = Done s ->
+  forall t2 errs2, parse s = Done (t2, errs2) -> serialize_with_options with_junk t2 = Done s.
+
+(* As the code stands both are false.  D7: the source "#" parses to a comment with ZERO lines, which is
+   serialised as a single line feed, which parses to the empty resource. *)
+Theorem C04_roundtrip_statement_refuted_by_D7 : ~ C04_roundtrip_statement.
+Proof.
+  intros H.
+  destruct (H [35%N] [CommentEntry (Comment [])] [] eq_refl eq_refl true [10%N] eq_refl)
+    as [t2 [e2 [Hp Hn]]].
+  vm_compute in Hp. injection Hp as <- <-. vm_compute in Hn. discriminate Hn.
+Qed.
+
+Theorem C04_fixpoint_statement_refuted_by_D7 : ~ C04_fixpoint_statement.
+Proof.
+  intros H.
+  pose proof (H [35%N] [CommentEntry (Comment [])] [] eq_refl eq_refl true [10%N] eq_refl [] [] eq_refl) as Hs.
+  vm_compute in Hs. discriminate Hs.
+Qed.
+
+(* D21: "k = v\n  \r" parses to a pattern with an EMPTY last text element; the re-parsed tree has the text
+   "v" instead of "v\n". *)
+Theorem C04_roundtrip_statement_refuted_by_D21 : ~ C04_roundtrip_statement.
+Proof.
+  intros H.
+  destruct (H [107; 32; 61; 32; 118; 10; 32; 32; 13]%N
+              [Message [107%N] (Some (Pattern [TextElement [118; 10]%N; TextElement []])) [] None] []
+              eq_refl eq_refl true
+              [107; 32; 61; 10; 32; 32; 32; 32; 118; 10; 32; 32; 32; 32; 10]%N eq_refl)
+    as [t2 [e2 [Hp Hn]]].
+  vm_compute in Hp. injection Hp as <- <-. vm_compute in Hn. discriminate Hn.
+Qed.
+
+(* ---------------------------------------------------------------------------------------------- *)
+(* Non-vacuity: the round trip and the fixed point on concrete inputs                               *)
+
+Definition roundtrips (with_junk : bool) (bs : bytes) : Prop :=
+  exists t errs s t2 errs2,
+    parse bs = Done (t, errs) /\ serialize_with_options with_junk t = Done s /\
+    parse s = Done (t2, errs2) /\
+    norm t2 = norm (drop_junk_unless with_junk t) /\
+    serialize_with_options with_junk t2 = Done s.
+
+Local Ltac conj_compute := repeat (split; [vm_compute; reflexivity|]); vm_compute; reflexivity.
+Local Notation b := bytes_of_string.
+Local Notation LF := [10%N].
+Local Notation CRLF := [13%N; 10%N].
+
+(* a select expression with a default variant *)
+Example C04_example_select :
+  roundtrips true (b "a = { $n ->" ++ LF ++ b "    [one] x" ++ LF ++ b "   *[other] y {-t(k: 1)}" ++ LF ++ b "}" ++ LF).
+Proof. do 5 eexists. conj_compute. Qed.
+
+(* a multi-line value whose first text starts with '[' (stays on the line of the '=') *)
+Example C04_example_bracket_multiline :
+  roundtrips true (b "a = [x" ++ LF ++ b "    y" ++ LF ++ b "  .at =" ++ LF ++ b "     *z" ++ LF ++ b "       w" ++ LF).
+Proof. do 5 eexists. conj_compute. Qed.
+
+(* a CRLF source with an attached comment and a group comment *)
+Example C04_example_crlf :
+  roundtrips false (b "# c" ++ CRLF ++ b "a = x" ++ CRLF ++ b "  y" ++ CRLF ++ CRLF ++ b "## g" ++ CRLF ++ b "#  " ++ CRLF).
+Proof. do 5 eexists. conj_compute. Qed.
+
+(* Junk between entries, both options *)
+Example C04_example_junk_kept :
+  roundtrips true (b "a = 1" ++ LF ++ b "}junk" ++ LF ++ b "b = 2" ++ LF).
+Proof. do 5 eexists. conj_compute. Qed.
+Example C04_example_junk_dropped :
+  roundtrips false (b "a = 1" ++ LF ++ b "}junk" ++ LF ++ b "b = 2" ++ LF).
+Proof. do 5 eexists. conj_compute. Qed.
+
+(* the Junk entry is really there in the first tree and really gone / kept in the second *)
+Example C04_example_junk_trees :
+  exists t errs, parse (b "a = 1" ++ LF ++ b "}junk" ++ LF ++ b "b = 2" ++ LF) = Done (t, errs) /\
+    length t = 3 /\ length (drop_junk_unless false t) = 2 /\
+    serialize_with_options true t = Done (b "a = 1" ++ LF ++ b "}junk" ++ LF ++ b "b = 2" ++ LF) /\
+    serialize_with_options false t = Done (b "a = 1" ++ LF ++ b "b = 2" ++ LF).
+Proof. do 2 eexists. conj_compute. Qed.
